@@ -23,9 +23,10 @@ try:
     else:
         rc1, o1 = sh(demo, env=env); res["demo_with_patch"] = rc1; res["demo_tail"] = o1[-300:]
         if suite:
-            rc, out = sh("cd %s && timeout 1500 /venv/bin/python -m pytest -q -p no:cacheprovider --timeout=900 2>&1 | tail -3" % wt, env=env)
+            rc, out = sh("cd %s && timeout 1500 /venv/bin/python -m pytest -q -p no:cacheprovider --timeout=900 2>&1 | tail -15" % wt, env=env)
             m = re.search(r"(\d+) passed", out); f = re.search(r"(\d+) failed", out)
-            res["suite"] = {"passed": int(m.group(1)) if m else None, "failed": int(f.group(1)) if f else 0}
+            res["suite"] = {"passed": int(m.group(1)) if m else None, "failed": int(f.group(1)) if f else 0,
+                            "failed_tests": re.findall(r"FAILED (\S+)", out)}
         t = time.time()
         rc, out = sh("cd /verif && VERIF_REPO=%s timeout 3000 ./check %s %s" % (wt, pid, tier))
         res["check_exit"] = rc; res["check_wall_s"] = round(time.time() - t, 1)
